@@ -171,7 +171,7 @@ ApplyEntry(fs, base, e) ==
             LET p == PhysNoFollow(fs, fn)
                 tp == PhysFollow(fs, LinkDest(base, fn, e)) IN
             IF Materialise(base, fn, e) /\ p # <<>> /\ IsDir(fs, Front(p)) /\ ~Has(fs, p) /\ Has(fs, tp) /\ Get(fs, tp).k = "file"
-            THEN [fs |-> Put(fs, [p |-> p, k |-> "hard", t |-> tp, abs |-> 0]), touched |-> {p}]
+            THEN [fs |-> Put(fs, [p |-> p, k |-> "hard", t |-> tp, abs |-> 0]), touched |-> {p, tp}]   \* the target's inode gets a new name
             ELSE [fs |-> fs, touched |-> {}]
 
 \* ------------------------------------------------------------------ OCI layout (scheme/ocidir)
